@@ -20,7 +20,7 @@ PEER = B.PEER_HOSTS[0]
 OPS = ["in_req_retransmit_rejected", "conn_while_stopping", "in_req_answered", "in_req_rejected_app", "in_req_rejected_avp", "in_req_rejected_realm", "out_req_answered", "dwr_in", "dwr_out",
        "conn_inbound_then_gone", "conn_unknown_peer", "conn_cer_nocommon", "conn_dial_refused", "conn_dial_async_fail", "conn_dial_cea_rejected",
        "conn_dial_ok_then_closed", "conn_second_of_connected_peer", "conn_silent_until_timeout",
-       "in_req_then_conn_gone", "out_req_then_conn_gone", "conn_unknown_peer_fresh_name", "in_req_dpr_answer_refused", "stranger_bad_cer_conn_stays_open"]
+       "in_req_then_conn_gone", "out_req_then_conn_gone", "conn_unknown_peer_fresh_name", "in_req_dpr_answer_refused", "stranger_bad_cer_conn_stays_open", "conn_dial_no_socket"]
 
 
 def measure(h, skip):
@@ -202,7 +202,17 @@ class Driver(H.Hist):
         elif name.startswith("conn_dial"):
             # dialling needs the peer to be without a connection
             self.ev_gone(c)
-            if name == "conn_dial_refused":
+            if name == "conn_dial_no_socket":
+                # the attempt fails before there is a socket at all (out of descriptors; no SCTP support)
+                WORLD.socket_fails = True
+                try:
+                    self.n._connect_to_peer(self.p)
+                except Exception:
+                    pass
+                finally:
+                    WORLD.socket_fails = False
+                self.settle()
+            elif name == "conn_dial_refused":
                 self.ev_dial("refused")
             elif name == "conn_dial_async_fail":
                 self.ev_dial("inprog_fail")
